@@ -41,7 +41,28 @@ RULE = ("Well-shaped oriented manifold surfaces: (tri_surface) triangulations fr
         "a constant and on a random attribute. (nonconvex_face) one planar simple polygon with 4-8 vertices, star-shaped, with at least "
         "one reflex corner (optionally with an out-of-plane neighbour triangle): face_area / face_normals / face_barycenter / total_area "
         "against the vector-area definitions, as generated, with the face's vertex list rotated, and rigidly moved. non-trivial = non-identity rotation, translation and scale, and the mesh is closed with "
-        ">= 4 faces or has both border and interior vertices (surfaces) / has >= 2 cells (tets); distinct = distinct realised case.")
+        ">= 4 faces or has both border and interior vertices (surfaces) / has >= 2 cells (tets); distinct = distinct realised case. "
+        "Round 6 - CALL SPELLING: every attribute call is spelled in one of the styles keyword / positional (documented order, defaults in "
+        "between written out) / positional-full / keyword incl. mesh= / mixed (seeded positional prefix) / flags as numpy.bool_ / flags as "
+        "0-1, drawn per call (label call-style=...); the all-default call is issued as f(mesh), with the documented defaults written out, or "
+        "with a single option (persistent=True, name=<documented>, dense=False - the attribute under the documented name is then SPARSE "
+        "for the calls that use it as a cache); mean_xxx: n omitted / None written out / positional / n= / mesh=, n=; n as numpy int32 / "
+        "int64 / uint8 equal to the element count; global functions with mesh=. interpolation: weight omitted (documented default "
+        "'uniform') / positional / weight=, attributes by their documented parameter names, mesh= too; input and output attributes "
+        "that are objects of the caller's own (ArrayAttribute / Attribute not registered on the mesh, as in-repo callers pass); the "
+        "constant 0.0 / int 0; the output attribute handed in must hold the returned values; after the calls the caller overwrites the "
+        "input attribute (setitem and in place) and the last output must not follow. custom_fnormals additionally as a sparse attribute "
+        "carrying (c, c, c) through its default value only (len() == 0), registered or not. HISTORY: a quarter of the non-persistent and "
+        "all-default calls are issued twice before anything is read (both results checked); a third of the non-persistent results are "
+        "overwritten by the caller after reading (must not reach the mesh or later results); three calls of other library functions "
+        "(border / connectivity accessors, border_normals, face_near_border, cell_faces_on_boundary) are mixed into the call order. "
+        "(thin_exact) two triangles over a common edge of length 1e6..1e9 with INTEGER coordinates (needle with a right angle, cap with "
+        "the apex within 1e-6..1e-9 of pi, obtuse at an end, or well shaped and huge), flat or folded, times 2**k (k <= 10), signed axis "
+        "permutation, integer translation up to 2**40: every quantity except the circumcentre against exact integer arithmetic "
+        "(non-trivial = min angle <= 1e-5 or coordinates >= 1e9). (large_mesh) jittered, rotated grids sized just beyond 2**16 / 10**5 "
+        "elements of one container - 66 976 triangles (100 830 edges), 66 008 edges, 66 564 vertices (quads, 264 196 corners), 66 654 "
+        "tetrahedra - built inside the check from (kind, seed, rotation); a seeded choice of functions worth ~1.6 s (quick) / ~6 s (thorough) walking the oversized "
+        "containers, mean_xxx with n around 2**16 / 10**5, against vectorised numpy definitions; two cases per quick run.")
 ASSUMPTIONS = [
     "faces are planar (relative defect <= 1e-9) and strictly convex with corner angles in [10, 165] degrees (triangles: min angle 8 degrees); "
     "cells have |det| >= 1e-6; no isolated vertices",
@@ -55,6 +76,16 @@ ASSUMPTIONS = [
     "persistent calls on one mesh use pairwise distinct attribute names (re-creating an existing name is C05's subject)",
     "vertex_normals(mode) is evaluated only on meshes where |sum w n| / sum w >= 0.05 at every vertex (well-defined direction; a folded "
     "vertex star whose normals cancel is a degenerate element)",
+    "call spellings: parameter names, their order and defaults are the documented ones (signatures + docstrings of mouette.attributes); "
+    "flags given as numpy.bool_ / 0 / 1 mean what bool() makes of them; n is a positive python / numpy integer (n = 0 is not called)",
+    "thin_exact: coordinates are integers below 2**52 handed over as floats, so edge vectors are exact; tolerances (relative to each element) "
+    "lengths / areas / means 1e-12; corner angles 1e-9 theta + 1e-13; cotangents 1e-9 |c| + 1e-13 c^2 (direct and via cached angles: both "
+    "routes lose |c| ulps); cotan weights the sum of those; defects 1e-9; face normals 1e-9 + 1e-14 / (min angle); vertex normals 1e-8 + "
+    "1e-13 / (min angle); the unchanged library stays >= 100x inside (C07_THIN_TOL_SCALE=0.01 passes); face_circumcenter is not "
+    "evaluated there (its conditioning is that of the triangle); numpy-int coordinates are not used there (int64 products overflow)",
+    "large_mesh: quads are planar (in-plane jitter) and convex; the mesh is described by parameters, not stored in the case; watchdog 150 s",
+    "output attributes of the interpolation functions are created with the type's default value (zero); a non-zero default of an OUTPUT "
+    "was finding F-C07-7 'output_default' (fixed in /repo), its oracle is on",
 ]
 
 TOL = 1e-9
@@ -69,7 +100,12 @@ TOL = 1e-9
 #   recall_existing   : with mouette.config.display_duplicate_attribute_warning = True, create_attribute hands back the attribute that
 #                       already carries the name, and degree / angle_defects / cotan_weights / face_area (>4 sides) accumulate on top of
 #                       its old values (degree doubles on a second degree(mesh)).  While off, the switch is left at the library default.
-PENDING = {"circumcenter_tiny": True, "reused_output": True, "recall_existing": True}
+#   output_default    : (round 6, OFF: /repo not fixed) an OUTPUT attribute created with a non-zero default value: the interpolate_/average_
+#                       functions clear() it and then accumulate on top of what it reads, i.e. on top of the default - the constant 2.5
+#                       comes back as (3*2.5 + 7)/3 from interpolate_vertices_to_faces into an output with default 7. Proposed fix:
+#                       scratch/fixes/C07-r6-output-default.diff (+ .json, replay with C07_PENDING=output_default). While off, outputs are
+#                       created with the type's default (0) only.
+PENDING = {"circumcenter_tiny": True, "reused_output": True, "recall_existing": True, "output_default": True}    # output_default: finding F-C07-7, fixed in /repo (a58dafc)
 for _k in os.environ.get("C07_PENDING", "").split(","):
     if _k.strip() in PENDING:
         PENDING[_k.strip()] = True
@@ -336,6 +372,97 @@ class Variant:
 
 # --------------------------------------------------------------------------------------------- evaluation of one mesh
 
+
+# ---- how the caller spells the arguments (round 6). Documented parameter order after `mesh` and documented defaults, read from the
+# signatures / docstrings of mouette.attributes; a call is one of the styles below, every style denotes the SAME call.
+PARAM_ORDER = {"angle_defects": ["zero_border", "name", "persistent", "dense"],
+               "vertex_normals": ["name", "persistent", "interpolation", "dense", "custom_fnormals"]}
+PARAM_ORDER_DEFAULT = ["name", "persistent", "dense"]
+PARAM_DEFAULTS = {"persistent": True, "dense": True, "zero_border": False, "interpolation": "area", "custom_fnormals": None}
+DEFAULT_NAME = {"degree": "degree", "angle_defects": "angleDefect", "vertex_normals": "normals", "edge_length": "length",
+                "edge_middle_point": "middle", "cotan_weights": "cotan_weight", "corner_angles": "angles", "cotangent": "cotan",
+                "face_area": "area", "face_normals": "normals", "face_barycenter": "barycenter", "face_circumcenter": "circumcenter",
+                "cell_volume": "volume", "cell_barycenter": "barycenter"}
+CALL_STYLES = ["keyword", "keyword", "positional", "positional-full", "keyword-incl-mesh", "mixed", "flags=numpy.bool_", "flags=0/1"]
+FLAG_PARAMS = ("persistent", "dense", "zero_border")
+
+
+def spell_call(fname, mesh, kw, style, rnd):
+    """(args, kwargs) spelling the call fname(mesh, **kw) in the given style. Parameters absent from kw are at their documented
+    default: a positional spelling writes the documented default out for those that precede the last one given."""
+    order = PARAM_ORDER.get(fname, PARAM_ORDER_DEFAULT)
+    dflt = dict(PARAM_DEFAULTS, name=DEFAULT_NAME[fname])
+    if style == "keyword":
+        return (mesh,), dict(kw)
+    if style == "keyword-incl-mesh":
+        return (), dict(kw, mesh=mesh)
+    if style in ("flags=numpy.bool_", "flags=0/1"):
+        conv = np.bool_ if style == "flags=numpy.bool_" else int
+        return (mesh,), {k: (conv(v) if k in FLAG_PARAMS and isinstance(v, bool) else v) for k, v in kw.items()}
+    given = [i for i, p_ in enumerate(order) if p_ in kw]
+    last = (len(order) - 1) if style == "positional-full" else (max(given) if given else -1)
+    if style == "mixed":
+        npos = rnd.randrange(last + 2)          # 0 .. last+1 leading parameters by position, the others by keyword
+        args = [kw.get(p_, dflt[p_]) for p_ in order[:npos]]
+        return (mesh,) + tuple(args), {k: v for k, v in kw.items() if k not in order[:npos]}
+    return (mesh,) + tuple(kw.get(p_, dflt[p_]) for p_ in order[:last + 1]), {}
+
+
+def show_call(fname, args, kwargs):
+    def r(v):
+        return "mesh" if hasattr(v, "vertices") else "<attribute>" if hasattr(v, "elemsize") else f"{type(v).__name__}({v!r})" if isinstance(v, (np.generic,)) else repr(v)
+    return f"{fname}(" + ", ".join([r(a) for a in args] + [f"{k}={r(v)}" for k, v in kwargs.items()]) + ")"
+
+
+def scribble(attr, n, dim, is_int):
+    """the caller overwrites a result it owns (a non-persistent attribute): nothing on the mesh may change through it"""
+    try:
+        for i in range(n):
+            attr[i] = (-7 if is_int else -7.25) if dim == 1 else [-7.25] * dim
+    except Exception:
+        pass
+
+
+def other_library_calls(ctx, mesh, rnd, nV, surface=True):
+    """(history) calls of the library that are NOT this property's subject, mixed into the shuffled call order: lazily computed border
+    flags / connectivity, sibling attribute functions that register attributes of their own on the same containers. Whatever they
+    return or raise is ignored here; the measured quantities that follow must not depend on them."""
+    import mouette as M
+    A = M.attributes
+    v = rnd.randrange(max(1, nV))
+    if surface:
+        pool = [("is_triangular", lambda: mesh.is_triangular()), ("is_quad", lambda: mesh.is_quad()),
+                ("boundary_vertices", lambda: (list(mesh.boundary_vertices), list(mesh.interior_vertices))),
+                ("boundary_edges", lambda: (list(mesh.boundary_edges), list(mesh.interior_edges))),
+                ("is_vertex_on_border", lambda: mesh.is_vertex_on_border(v)),
+                ("vertex_to_faces", lambda: (mesh.connectivity.vertex_to_faces(v), mesh.connectivity.vertex_to_vertices(v))),
+                ("face_to_faces", lambda: mesh.connectivity.face_to_faces(0)),
+                ("border_normals", lambda: A.border_normals(mesh)), ("face_near_border", lambda: A.face_near_border(mesh)),
+                ("border_normals[dense]", lambda: A.border_normals(mesh, dense=True)),
+                ("face_near_border[dist=1]", lambda: A.face_near_border(mesh, 1, dense=True))]
+    else:
+        pool = [("is_tetrahedral", lambda: mesh.is_tetrahedral()),
+                ("boundary_faces", lambda: (list(mesh.boundary_faces), list(mesh.interior_faces))),
+                ("boundary_vertices", lambda: (list(mesh.boundary_vertices), list(mesh.interior_vertices))),
+                ("boundary_edges", lambda: (list(mesh.boundary_edges), list(mesh.interior_edges))),
+                ("is_vertex_on_border", lambda: mesh.is_vertex_on_border(v)),
+                ("cell_faces_on_boundary", lambda: A.cell_faces_on_boundary(mesh)),
+                ("cell_faces_on_boundary[dense]", lambda: A.cell_faces_on_boundary(mesh, dense=True)),
+                ("vertex_to_cell", lambda: mesh.connectivity.vertex_to_cell(v)), ("cell_to_cell", lambda: mesh.connectivity.cell_to_cell(0))]
+    rnd.shuffle(pool)
+    res = []
+    for nm, fn in pool[:3]:
+        def run(call, out, hist, nm=nm, fn=fn):
+            hist.append("(" + nm + ")")
+            try:
+                fn()
+            except Exception:
+                pass
+        res.append(("glob", run))
+    ctx.label("other-library-calls-in-between")
+    return res
+
+
 COMBOS = [(True, True), (True, False), (False, True), (False, False)]
 
 
@@ -361,6 +488,7 @@ def run_attribute_calls(ctx, mesh, funcs, ref, masks, sizes, L, rnd, where, full
     rnd.shuffle(calls)
     out = {}
     hist = []
+    empty_name_used = set()
     for call in calls:
         if call[0] not in ("attr", "default"):
             call[1](call, out, hist)
@@ -372,21 +500,45 @@ def run_attribute_calls(ctx, mesh, funcs, ref, masks, sizes, L, rnd, where, full
         n = sizes[CONT_OF[cname]]
         kind = KINDS[q][1]
         if call[0] == "default":
-            kw = {}
-            desc = f"{fname}(mesh)"
+            # the all-default call: nothing given / the documented defaults written out / only one option given at its default or
+            # (dense) at the other value - the attribute then sits under the documented name as a SPARSE one for the calls that follow
+            kw = ({}, {}, dict(extra, name=name, persistent=True, dense=True), {"persistent": True}, {"dense": False}, {"name": name})[rnd.randrange(6)]
+            p, d = True, kw.get("dense", True)
+            if kw.get("dense") is False:
+                ctx.label("documented-name-attribute=sparse")
         else:
+            if p and cname not in empty_name_used and rnd.randrange(10) == 0:
+                # (falsy but legitimate) the empty string is a name like any other; at most one attribute per container carries it
+                empty_name_used.add(cname)
+                name = ""
+                ctx.label("attribute-name=empty-string")
             kw = dict(extra, name=name, persistent=p, dense=d)
-            desc = f"{fname}(mesh, {', '.join(f'{k}={v!r}' for k, v in kw.items())})"
-        w = f"{where}: {desc} after {hist[-3:]}"
-        hist.append(desc.split("(")[0] + ("" if call[0] == "default" else f"[p={int(p)},d={int(d)}]"))
+        style = CALL_STYLES[rnd.randrange(len(CALL_STYLES))]
+        args, kwargs = spell_call(fname, mesh, kw, style, rnd)
+        ctx.label("call-style=" + style)
+        desc = show_call(fname, args, kwargs)
+        w = f"{where}: {desc} [{style}] after {hist[-3:]}"
+        hist.append(fname + ("[defaults]" if call[0] == "default" else f"[p={int(p)},d={int(d)}]"))
         sig = fname + ("" if not extra else ":" + ",".join(f"{k}={v}" for k, v in extra.items()))
-        ok, attr = ctx.call(sig, f, mesh, **kw)
+        ok, attr = ctx.call(sig, f, *args, **kwargs)
         if not ok:
             continue
+        # (same call twice before anything is read) non-persistent calls and all-default calls: the first result must survive the second call
+        again = None
+        if (not p or call[0] == "default") and rnd.randrange(4) == 0:
+            ok_b, again = ctx.call(sig, f, *args, **kwargs)
+            if not ok_b:
+                continue
+            ctx.label("called-twice-before-reading")
+            hist.append(hist[-1])
         vals = read_attr(ctx, sig, attr, n, dim, w)
         if vals is None:
             continue
         compare(ctx, "ref:" + sig, vals, ref[q], kind, L, w, masks.get(q))
+        if again is not None:
+            v2 = read_attr(ctx, sig, again, n, dim, w + " [second of two calls issued before reading]")
+            if v2 is not None:
+                compare(ctx, "ref:" + sig, v2, ref[q], kind, L, w + " [second of two calls issued before reading]", masks.get(q))
         if q in out:
             compare(ctx, "variants:" + sig, vals, out[q], kind, L, w + " [vs. the first call of the same function]", masks.get(q))
         else:
@@ -398,12 +550,16 @@ def run_attribute_calls(ctx, mesh, funcs, ref, masks, sizes, L, rnd, where, full
         if p:
             if ctx.check(bool(has), "register:" + fname, f"{w}: persistent call did not register '{name}' on mesh.{cname}"):
                 ok3, reg = ctx.call(sig + ":get_attribute", cont.get_attribute, name)
-                if ok3 and reg is not attr:
+                if ok3 and reg is not attr and again is None:
                     rv = read_attr(ctx, sig, reg, n, dim, w + " [registered attribute]")
                     if rv is not None:
                         compare(ctx, "register:" + fname, rv, vals, kind, L, w + " [registered attribute vs returned one]")
         else:
             ctx.check(not has, "register:" + fname + ":non-persistent", f"{w}: non-persistent call registered '{name}' on mesh.{cname}")
+            if rnd.randrange(3) == 0:
+                # the caller owns a non-persistent result: overwriting it must not reach the mesh or any later result
+                scribble(attr, n, dim, kind == "int")
+                ctx.label("non-persistent-result-overwritten-by-caller")
     return out
 
 
@@ -415,7 +571,8 @@ def mean_calls(ctx, mesh, fname, qname, per_elem_ref, kind, L, rnd, where, full,
     ns = [None]
     if full:
         # below, at and above the element count; far above it (the bound is 'how many at most'); a numpy integer scalar
-        ns += sorted({1, max(1, N // 2), N, N + 1 + rnd.randrange(5)}) + [(10 ** 6, 2 ** 53 + 1, 256 * N)[rnd.randrange(3)], np.int64(max(1, N - 1))]
+        ns += sorted({1, max(1, N // 2), N, N + 1 + rnd.randrange(5)}) + [(10 ** 6, 2 ** 53 + 1, 256 * N)[rnd.randrange(3)], np.int64(max(1, N - 1)),
+                                                                          (np.int32, np.int64, np.uint8 if N < 255 else np.int32)[rnd.randrange(3)](N)]
     else:
         ns += [1 + rnd.randrange(N + 4)]
     res = []
@@ -423,7 +580,18 @@ def mean_calls(ctx, mesh, fname, qname, per_elem_ref, kind, L, rnd, where, full,
         def run(call, out, hist, n=n):
             w = f"{where}: {fname}(mesh, n={n}) after {hist[-3:]}"
             hist.append(f"{fname}[n={n}]")
-            ok, v = ctx.call(fname, f, mesh) if n is None else ctx.call(fname, f, mesh, n)
+            # (spelling of the argument) omitted / positional / n= keyword / mesh= and n= keywords; None written out
+            form = rnd.randrange(4)
+            if n is None and form == 0:
+                a_, k_ = (mesh,), {}
+            elif form in (0, 1):
+                a_, k_ = (mesh, n), {}
+            elif form == 2:
+                a_, k_ = (mesh,), {"n": n}
+            else:
+                a_, k_ = (), {"mesh": mesh, "n": n}
+            w += " [called as " + show_call(fname, a_, k_) + "]"
+            ok, v = ctx.call(fname, f, *a_, **k_)
             if not ok:
                 return
             k = N if n is None else min(n, N)
@@ -493,7 +661,7 @@ def evaluate_surface(ctx, V, F, rnd, where, full, int_form=None, idx_form="list"
         def run(call, out, hist):
             w = f"{where}: {fname}(mesh) after {hist[-3:]}"
             hist.append(fname)
-            ok, v = ctx.call(fname, getattr(A, fname), mesh)
+            ok, v = ctx.call(fname, getattr(A, fname), mesh) if rnd.randrange(2) else ctx.call(fname, getattr(A, fname), mesh=mesh)
             if not ok:
                 return
             try:
@@ -515,21 +683,40 @@ def evaluate_surface(ctx, V, F, rnd, where, full, int_form=None, idx_form="list"
 
     # vertex_normals(custom_fnormals=...): the given face vectors are interpolated instead of the geometric normals
     def custom(call, out, hist):
+        from mouette.mesh.mesh_attributes import Attribute, ArrayAttribute
         mode = ("uniform", "area", "angle")[rnd.randrange(3)]
         p, d = COMBOS[rnd.randrange(4)]
-        Q = R.quat_to_matrix([0.5, 0.5, -0.5, 0.5])
-        cn = ref["fnormal"] @ Q.T
+        how = rnd.randrange(4)
+        if how == 0:
+            # (falsy but legitimate) a sparse attribute that carries its value through its default only, no entry stored (len() == 0):
+            # every face has the vector (c, c, c)
+            c = (1.0, -2.5, 0.5)[rnd.randrange(3)]
+            cn = np.full((nF, 3), c)
+        else:
+            Q = R.quat_to_matrix([0.5, 0.5, -0.5, 0.5])
+            cn = ref["fnormal"] @ Q.T
         exp, qual = R.vertex_normals(V, F, mode, fnormals=cn)
         if not np.all(qual >= 0.05):
             return
-        dense_in = rnd.randrange(2) == 0
-        cattr = mesh.faces.create_attribute("c07_custom_normals", float, 3, dense=dense_in)
-        for k in range(nF):
-            cattr[k] = cn[k]
-        w = f"{where}: vertex_normals(mesh, interpolation={mode!r}, persistent={p}, dense={d}, custom_fnormals=<rotated face normals>) after {hist[-3:]}"
+        dense_in = rnd.randrange(2) == 0 and how != 0
+        standalone = rnd.randrange(3) == 0      # an attribute object of the caller's, not registered on the mesh (as in-repo callers pass)
+        if how == 0:
+            cattr = Attribute(float, 3, default_value=c) if standalone else mesh.faces.create_attribute("c07_custom_normals", float, 3, dense=False, default_value=c)
+            ctx.label("custom_fnormals=sparse,default-only,no-entry")
+        else:
+            if standalone:
+                cattr = ArrayAttribute(float, nF, 3) if dense_in else Attribute(float, 3)
+            else:
+                cattr = mesh.faces.create_attribute("c07_custom_normals", float, 3, dense=dense_in)
+            for k in range(nF):
+                cattr[k] = cn[k]
+        style = CALL_STYLES[rnd.randrange(len(CALL_STYLES))]
+        args, kwargs = spell_call("vertex_normals", mesh, dict(name="c07_vn_custom", persistent=p, dense=d, interpolation=mode, custom_fnormals=cattr), style, rnd)
+        w = (f"{where}: {show_call('vertex_normals', args, kwargs)} [{style}; custom_fnormals = "
+             + ("a sparse attribute with default " + repr(c) + " and no stored entry" if how == 0 else "rotated face normals, " + ("dense" if dense_in else "sparse"))
+             + (", not registered on the mesh" if standalone else "") + f"] after {hist[-3:]}")
         hist.append("vertex_normals[custom]")
-        ok, attr = ctx.call("vertex_normals:custom", A.vertex_normals, mesh, name="c07_vn_custom", persistent=p, dense=d,
-                            interpolation=mode, custom_fnormals=cattr)
+        ok, attr = ctx.call("vertex_normals:custom", A.vertex_normals, *args, **kwargs)
         if ok:
             vals = read_attr(ctx, "vertex_normals:custom", attr, nV, 3, w)
             if vals is not None:
@@ -605,6 +792,7 @@ def evaluate_surface(ctx, V, F, rnd, where, full, int_form=None, idx_form="list"
     if full:
         extra.append(("glob", bad_mode))
 
+    extra += other_library_calls(ctx, mesh, rnd, nV, True)
     out = run_attribute_calls(ctx, mesh, SURF_FUNCS, ref, masks, sizes, L, rnd, where, full, extra)
     out["_masks"] = masks
     out["_L"] = L
@@ -954,6 +1142,8 @@ def fn_surface(case, ctx):
     bv = ref0.border_vertices()
     ctx.nontrivial((not ident) and ((not bv and len(F) >= 4) or (bv and len(bv) < len(V))))
     ctx.label("border+interior" if (bv and len(bv) < len(V)) else "closed" if not bv else "border-only")
+    if len(F) <= 2:
+        ctx.label(f"minimal:faces={len(F)}")
     rnd = random.Random(case["seed"])
     apply_config(case, ctx)
     iform, xform = common_labels(case, ctx, V, s, tr)
@@ -1017,6 +1207,10 @@ def fn_surface(case, ctx):
             finally:
                 PREC.update(PREC64)
 
+
+INTERP_PARAMS = {"interpolate_vertices_to_faces": ("vattr", "fattr"), "interpolate_faces_to_vertices": ("fattr", "vattr"),
+                 "scatter_vertices_to_corners": ("vattr", "cattr"), "average_corners_to_vertices": ("cattr", "vattr"),
+                 "scatter_faces_to_corners": ("fattr", "cattr"), "average_corners_to_faces": ("cattr", "fattr")}
 
 PERMS4 = None
 
@@ -1085,6 +1279,7 @@ def evaluate_tets(ctx, V, C, rnd, where, full, int_form=None, idx_form="list", f
                 compare(ctx, "const:interpolate_vertices_to_faces", vals, np.full(len(mfaces), cval), "inv", L,
                         f"{where}: constant {cval} through interpolate_vertices_to_faces on a VolumeMesh (in dense={di}, out dense={do})")
     extra.append(("glob", v2f))
+    extra += other_library_calls(ctx, mesh, rnd, len(V), False)
     out = run_attribute_calls(ctx, mesh, TET_FUNCS, ref, {}, sizes, L, rnd, where, full, extra)
     out["_masks"] = {}
     out["_L"] = L
@@ -1106,6 +1301,8 @@ def fn_tets(case, ctx):
         ctx.label(t)
     Rm, tr, s, ident = motion_of(case)
     ctx.nontrivial((not ident) and len(C) >= 2)
+    if len(C) <= 2:
+        ctx.label(f"minimal:cells={len(C)}")
     rnd = random.Random(case["seed"])
     apply_config(case, ctx)
     iform, xform = common_labels(case, ctx, V, s, tr)
@@ -1198,8 +1395,19 @@ def fn_interp(case, ctx):
             ("average_corners_to_faces", "C", "F", ["uniform", "angle", "sum"], lambda x, w: R.corners_to_faces(V, F, x, w), cnt_fc)]
     rnd.shuffle(jobs)
     uid = 0
+    from mouette.mesh.mesh_attributes import Attribute, ArrayAttribute
+
+    def new_attr(cnt, n, name, dim, dense, standalone, default=None):
+        """an attribute created through the container (registered on the mesh) or an object of the caller's own (what in-repo callers
+        pass as outputs: ArrayAttribute(float, n))"""
+        kw = {} if default is None else {"default_value": default}
+        if standalone:
+            return ArrayAttribute(float, n, dim, **kw) if dense else Attribute(float, dim, **kw)
+        return cnt.create_attribute(name, float, dim, dense=dense, **kw)
+
     for (fname, src, dst, weights, reff, mult) in jobs:
         f = getattr(A, fname)
+        pin, pout = INTERP_PARAMS[fname]
         (csrc, nsrc), (cdst, ndst) = cont[src], cont[dst]
         for what in ("const", "random", "sparse-default"):
             for dim in (1, 3):
@@ -1208,10 +1416,12 @@ def fn_interp(case, ctx):
                 uid += 1
                 din = rnd.randrange(2) == 0 and what != "sparse-default"
                 by_default = (what == "const" and dim == 1 and not din and rnd.randrange(2) == 0)
+                sa_in = rnd.randrange(4) == 0       # input attribute not registered on the mesh
                 # values handed over as numpy float32 scalars (a narrow dtype the attribute accepts as 'float')
                 vform = rnd.randrange(4) if (what == "const" and dim == 1 and not by_default) else 0
                 f32 = vform == 1          # values handed over as numpy.float32
                 as_int = vform == 2       # an integer-valued constant handed over as python int (castable into a float attribute)
+                zero = what == "const" and dim == 1 and rnd.randrange(5) == 0      # (falsy but legitimate) the constant 0.0 / int 0
                 written = None
                 if what == "const":
                     cv = float(case["const"]) if dim == 1 else np.array(case["cvec"], dtype=float)
@@ -1219,6 +1429,9 @@ def fn_interp(case, ctx):
                         cv = float(np.float32(cv))
                     if as_int:
                         cv = float(round(cv)) or 3.0
+                    if zero:
+                        cv = 0.0
+                        ctx.label("constant=0")
                     x = np.array([cv] * nsrc, dtype=float)
                 elif what == "sparse-default":
                     # a sparse attribute with a NON-ZERO default: most entries never written, a few written in decreasing index order,
@@ -1232,17 +1445,21 @@ def fn_interp(case, ctx):
                     x = nrnd.uniform(-1, 1, (nsrc,) if dim == 1 else (nsrc, 3))
                 # ONE input attribute object serves every weight mode of the function (argument reuse)
                 if by_default:
-                    ain = csrc.create_attribute(f"c07_in_{uid}", float, dim, dense=False, default_value=float(cv))
+                    ain = new_attr(csrc, nsrc, f"c07_in_{uid}", dim, False, sa_in, float(cv))
                 elif written is not None:
-                    ain = csrc.create_attribute(f"c07_in_{uid}", float, 1, dense=False, default_value=dflt)
+                    ain = new_attr(csrc, nsrc, f"c07_in_{uid}", 1, False, sa_in, dflt)
                     for k in written:
                         ain[k] = float(x[k])
                     ctx.label("input=sparse,non-zero-default,few-written")
                 else:
-                    ain = csrc.create_attribute(f"c07_in_{uid}", float, dim, dense=din)
+                    ain = new_attr(csrc, nsrc, f"c07_in_{uid}", dim, din, sa_in)
                     for i in range(nsrc):
                         ain[i] = (np.float32(x[i]) if f32 else int(x[i]) if as_int else float(x[i])) if dim == 1 else x[i]
+                if sa_in:
+                    ctx.label("input=attribute-object-not-registered-on-the-mesh")
                 ws = list(weights)
+                if ws[0] is not None:
+                    ws.append("<omitted>")          # the documented default of `weight` is 'uniform'
                 rnd.shuffle(ws)
                 if ws[0] is not None and rnd.randrange(2) == 0:
                     # (after a call that raised) an unknown mode must be refused; the calls that follow must be unaffected
@@ -1253,26 +1470,54 @@ def fn_interp(case, ctx):
                         ctx.n_assert += 1
                     else:
                         ctx.fail("bad-weight:" + fname, f"{fname}: unknown weight mode accepted (documented to raise)")
-                for w0 in ws:
+                last = None
+                for wi, w00 in enumerate(ws):
                     # the functions lower-case their `weight` argument: any capitalisation of a mode is the same mode
-                    w = w0
-                    if w0 is not None:
+                    w0 = "uniform" if w00 == "<omitted>" else w00
+                    w = None if w00 == "<omitted>" else w0
+                    if w is not None:
                         w = (w0, w0, w0.capitalize(), w0.upper(), w0[0] + w0[1:].upper())[rnd.randrange(5)]
                         if w != w0:
                             ctx.label("weight-spelling=non-lower-case")
                     dout = rnd.randrange(2) == 0
-                    aout = cdst.create_attribute(f"c07_out_{uid}_{w}", float, dim, dense=dout)
+                    sa_out = rnd.randrange(3) == 0
+                    odef = None
+                    if PENDING["output_default"] and rnd.randrange(3) == 0:
+                        odef = 7.0          # an output attribute created with a non-zero default value
+                        ctx.label("output=non-zero-default")
+                    aout = new_attr(cdst, ndst, f"c07_out_{uid}_{wi}", dim, dout, sa_out, odef)
+                    if sa_out:
+                        ctx.label("output=attribute-object-not-registered-on-the-mesh")
+                    # (spelling) everything by position / weight= / the attributes by their documented names / mesh= too
+                    form = rnd.randrange(4)
+                    if form == 0:
+                        a_, k_ = (mesh, ain, aout) + (() if w is None else (w,)), {}
+                    elif form == 1:
+                        a_, k_ = (mesh, ain, aout), ({} if w is None else {"weight": w})
+                    elif form == 2:
+                        a_, k_ = (mesh,), dict({pin: ain, pout: aout}, **({} if w is None else {"weight": w}))
+                    else:
+                        a_, k_ = (), dict({"mesh": mesh, pout: aout, pin: ain}, **({} if w is None else {"weight": w}))
+                    ctx.label("interp-call-form=" + ("positional", "weight=", "attributes-by-name", "all-by-name")[form])
                     desc = (f"{fname}(mesh, <{what} {'scalar' if dim == 1 else 'vector'} attribute, {'dense' if din else 'sparse'}"
-                            f"{' via default value' if by_default else ''}>, <fresh {'dense' if dout else 'sparse'} output>"
-                            + (f", weight={w!r})" if w else ")") + (" [values given as numpy.float32]" if f32 else " [values given as python int]" if as_int else "")
-                            + f" [weights so far on this input: {ws[:ws.index(w0)]}]")
-                    sig = fname + (":" + w0 if w0 else "")
-                    ok, r = (ctx.call(sig, f, mesh, ain, aout, w) if w else ctx.call(sig, f, mesh, ain, aout))
+                            f"{' via default value' if by_default else ''}{', not registered' if sa_in else ''}>, <fresh {'dense' if dout else 'sparse'} output"
+                            f"{', not registered' if sa_out else ''}{', default 7.0' if odef else ''}>"
+                            + (f", weight={w!r})" if w else ")") + f" [called as {show_call(fname, a_, k_)}]"
+                            + (" [values given as numpy.float32]" if f32 else " [values given as python int]" if as_int else "")
+                            + f" [weights so far on this input: {ws[:wi]}]")
+                    sig = fname + (":" + w0 if w0 else "") + (":default-weight" if w00 == "<omitted>" else "")
+                    ok, r = ctx.call(sig, f, *a_, **k_)
                     if not ok:
                         continue
                     vals = read_attr(ctx, sig, r, ndst, dim, desc)
                     if vals is None:
                         continue
+                    if r is not aout:
+                        # documented: the function fills and returns the output attribute it was given
+                        vo = read_attr(ctx, sig, aout, ndst, dim, desc + " [the output attribute handed in]")
+                        if vo is not None:
+                            ctx.check(bool(np.array_equal(vo, vals)), "output-not-filled:" + sig,
+                                      f"{desc}: the output attribute handed in does not hold the returned values")
                     if what == "const":
                         exp = np.array([cv] * ndst, dtype=float)
                         if w0 == "sum":
@@ -1286,19 +1531,31 @@ def fn_interp(case, ctx):
                         i, g, e, d = worst(vals, exp)
                         ctx.check(d <= 1e-9 * max(1.0, float(np.max(np.abs(exp)))), "ref:" + sig,
                                   f"{desc}: element {i} is {fmt(g)}, the documented weighted mean gives {fmt(e)}")
+                    last = (aout, vals, desc, sig)
                     if PENDING["reused_output"]:
                         # the same call a second time into the SAME output attribute must give the same values again
-                        ok, r2 = (ctx.call(sig, f, mesh, ain, aout, w) if w else ctx.call(sig, f, mesh, ain, aout))
+                        ok, r2 = ctx.call(sig, f, *a_, **k_)
                         if ok:
                             v2 = read_attr(ctx, sig, r2, ndst, dim, desc + " [second call, same output attribute]")
                             if v2 is not None:
                                 i, g, e, d = worst(v2, vals)
                                 ctx.check(d <= (1e-5 if f32 else 1e-10) * max(1.0, float(np.max(np.abs(vals)))), "reused-output:" + sig,
                                           f"{desc}: called a second time into the same output attribute, element {i} becomes {fmt(g)} (first call: {fmt(e)})")
+                                last = (aout, v2, desc, sig)
                 # the input must not be modified by any of the calls
                 back = read_attr(ctx, fname, ain, nsrc, dim, f"{fname}: input attribute after weights {ws}")
                 if back is not None:
                     ctx.check(bool(np.array_equal(back, x)), "input-modified:" + fname, f"{fname}: the input attribute was modified (weights {ws})")
+                # (the caller's container changed after the call) overwriting the input afterwards must not reach an output already computed
+                if last is not None and rnd.randrange(2) == 0:
+                    for i in range(nsrc):
+                        if dim == 3 and i % 2 == 0:
+                            ain[i][0] = 99.5         # in place, through the object the attribute hands out
+                        ain[i] = 99.5 if dim == 1 else [99.5, -99.5, 99.5]
+                    again = read_attr(ctx, last[3], last[0], ndst, dim, last[2] + " [read again after the caller overwrote the input attribute]")
+                    if again is not None:
+                        ctx.check(bool(np.array_equal(again, last[1])), "output-follows-input:" + fname,
+                                  f"{last[2]}: the output changed when the caller overwrote the input attribute after the call")
     mesh_unchanged(ctx, mesh, V, "interpolation mesh", F=F)
 
 
@@ -1459,6 +1716,421 @@ def fn_nonconvex(case, ctx):
                 compare(ctx, "nonconvex:corner_angles", vals, R.corner_angles(V, F), "inv", L, f"{where}: corner_angles at convex corners", sg > 0)
 
 
+# --------------------------------------------------------------------------------------------- ill-conditioned ends, exact oracle
+
+def _isub(p, q):
+    return [p[0] - q[0], p[1] - q[1], p[2] - q[2]]
+
+
+def _icross(u, v):
+    return [u[1] * v[2] - u[2] * v[1], u[2] * v[0] - u[0] * v[2], u[0] * v[1] - u[1] * v[0]]
+
+
+def _idot(u, v):
+    return u[0] * v[0] + u[1] * v[1] + u[2] * v[2]
+
+
+def _inorm(u):
+    """Euclidean norm of an integer vector: the squared norm is exact (python ints), one rounding to double, one correctly rounded sqrt"""
+    return math.sqrt(_idot(u, u))
+
+
+@st.composite
+def thin_case(draw):
+    """Two triangles over a common long edge A=(0,0,0), B=(a,0,0), a in 1e6..1e9, with INTEGER coordinates: apex (b, h) with h = 1..3
+    (needle with a right angle, cap with the apex angle within 1e-6..1e-9 of pi, obtuse at A) or h ~ a (well shaped, huge); the second
+    triangle lies in the same plane or is folded out of it; the whole is multiplied by 2**k, moved by a signed axis permutation and an
+    integer translation - every coordinate stays an integer below 2**51, so edge vectors are exact in double precision."""
+    a = draw(st.one_of(st.sampled_from([10 ** 6, 10 ** 7, 10 ** 8, 10 ** 9, 2 ** 20, 2 ** 30, 123456789]), st.integers(10 ** 6, 10 ** 9)))
+    kinds = []
+    apex = []
+    for _ in range(2):
+        kind = draw(st.sampled_from(["needle-right", "cap", "obtuse-at-end", "needle-right", "cap", "fat-huge"]))
+        if kind == "needle-right":
+            b, h = draw(st.sampled_from([0, a])), draw(st.integers(1, 3))
+        elif kind == "cap":
+            b, h = draw(st.integers(a // 4, 3 * a // 4)), draw(st.integers(1, 3))
+        elif kind == "obtuse-at-end":
+            b, h = draw(st.one_of(st.integers(-a, -a // 4), st.integers(a + a // 4, 2 * a))), draw(st.integers(1, 3))
+        else:
+            b, h = draw(st.integers(0, a)), draw(st.integers(a // 4, a))
+        kinds.append(kind)
+        apex.append((b, h))
+    fold = draw(st.sampled_from(["flat", "fold90", "fold45"]))
+    (b1, h1), (b2, h2) = apex
+    D = {"flat": [b2, -h2, 0], "fold90": [b2, 0, h2], "fold45": [b2, -h2, h2]}[fold]
+    P = [[0, 0, 0], [a, 0, 0], [b1, h1, 0], D]
+    k = draw(st.integers(0, 10))
+    perm = draw(st.permutations([0, 1, 2]))
+    sg = [draw(st.sampled_from([1, -1])) for _ in range(3)]
+    shift = [draw(st.sampled_from([0, 1, -7, 10 ** 6, -10 ** 9, 3 * 10 ** 11, -2 ** 40])) for _ in range(3)]
+    V = [[sg[j] * (2 ** k) * p[perm[j]] + shift[j] for j in range(3)] for p in P]
+    return {"V": V, "F": [[0, 1, 2], [1, 0, 3]], "kinds": kinds, "fold": fold, "a": a, "pow2": k, "seed": draw(st.integers(0, 10 ** 6))}
+
+
+def fn_thin(case, ctx):
+    import mouette as M
+    A = M.attributes
+    Vi = [[int(x) for x in v] for v in case["V"]]
+    F = [[int(v) for v in f] for f in case["F"]]
+    if F != [[0, 1, 2], [1, 0, 3]] or len(Vi) != 4 or max(abs(x) for v in Vi for x in v) >= 2 ** 52:
+        raise AssertionError("thin_exact: unexpected case layout")
+    for t in case.get("kinds", []):
+        ctx.label("triangle=" + t)
+    ctx.label("fold=" + str(case.get("fold")), "coordinates<=1e%d" % len(str(max(abs(x) for v in Vi for x in v))))
+    rnd = random.Random(case["seed"])
+    V = np.array([[float(x) for x in v] for v in Vi], dtype=float)
+    mesh = build_mesh(V, F=F, idx_form=idx_form_of(case["seed"], 4))
+    medges = [tuple(ints(e)) for e in mesh.edges]
+    if not ctx.check(sorted(medges) == [(0, 1), (0, 2), (0, 3), (1, 2), (1, 3)] and [ints(f) for f in mesh.faces] == F, "edges", "mesh.edges / faces differ from the input"):
+        return
+    # ---- exact reference
+    cr, ar2, nrm = [], [], []
+    ang, cot = [], []
+    for f in F:
+        Pf = [Vi[v] for v in f]
+        c = _icross(_isub(Pf[1], Pf[0]), _isub(Pf[2], Pf[0]))
+        if not any(c):
+            raise AssertionError("thin_exact: degenerate triangle generated")
+        cn = _inorm(c)
+        cr.append(c); ar2.append(cn); nrm.append([x / cn for x in c])
+        for i in range(3):
+            u, w_ = _isub(Pf[i - 1], Pf[i]), _isub(Pf[(i + 1) % 3], Pf[i])
+            sn, cs = _inorm(_icross(u, w_)), _idot(u, w_)
+            ang.append(math.atan2(sn, float(cs)))
+            cot.append(float(cs) / sn)
+    ang = np.array(ang); cot = np.array(cot); area = np.array(ar2) / 2.0; nrm = np.array(nrm)
+    tmin = np.array([ang[0:3].min(), ang[3:6].min()])
+    ctx.label("min-angle<=1e-8" if tmin.min() <= 1e-8 else "min-angle<=1e-6" if tmin.min() <= 1e-6 else "min-angle>1e-6")
+    ctx.label("max-angle>=pi-1e-6" if ang.max() >= math.pi - 1e-6 else "max-angle<pi-1e-6")
+    ctx.nontrivial(tmin.min() <= 1e-5 or max(abs(x) for v in Vi for x in v) >= 10 ** 9)
+    elen = np.array([_inorm(_isub(Vi[a_], Vi[b_])) for a_, b_ in medges])
+    emid = np.array([[(Vi[a_][j] + Vi[b_][j]) / 2.0 for j in range(3)] for a_, b_ in medges])
+    fbar = np.array([[sum(Vi[v][j] for v in f) / 3.0 for j in range(3)] for f in F])
+    Lc = float(np.max(np.abs(V)))
+    cot_tol = 1e-9 * np.abs(cot) + 1e-13 * cot * cot + 1e-12
+    corner_of = {}
+    for k_, f in enumerate(F):
+        for i in range(3):
+            corner_of[(k_, f[i])] = 3 * k_ + i
+    cw, cw_tol = [], []
+    for (a_, b_) in medges:
+        w_ = 0.0; t_ = 1e-12
+        for k_, f in enumerate(F):
+            if a_ in f and b_ in f:
+                c_ = corner_of[(k_, [v for v in f if v not in (a_, b_)][0])]
+                w_ += cot[c_] / 2; t_ += cot_tol[c_]
+        cw.append(w_); cw_tol.append(t_)
+    asum = np.zeros(4)
+    for k_, f in enumerate(F):
+        for i in range(3):
+            asum[f[i]] += ang[3 * k_ + i]
+
+    def elementwise(sig, got, exp, tol, what):
+        got = np.asarray(got, dtype=float); exp = np.asarray(exp, dtype=float)
+        tol = np.broadcast_to(np.asarray(tol, dtype=float).reshape((-1,) + (1,) * (exp.ndim - 1)) if np.ndim(tol) else tol, exp.shape)
+        bad = ~(np.abs(got - exp) <= tol * THIN_TOL_SCALE) if got.shape == exp.shape else None
+        if bad is None:
+            return ctx.check(False, sig + ":shape", f"{what}: shape {got.shape}, expected {exp.shape}")
+        if not bad.any():
+            ctx.n_assert += 1
+            return True
+        i = tuple(int(x) for x in np.argwhere(bad)[0])
+        return ctx.check(False, sig, f"{what}: element {i}: library {got[i]!r} vs exact-arithmetic reference {exp[i]!r} (|diff| {abs(got[i] - exp[i]):.3e} > tol {float(tol[i]):.3e}); "
+                         f"integer coordinates {Vi}, exact corner angles {ang.tolist()}")
+
+    uid = [0]
+
+    def run(fname, n, dim, **extra):
+        uid[0] += 1
+        p_, d_ = COMBOS[rnd.randrange(4)]
+        kw = dict(extra, name=f"c07_thin_{uid[0]}", persistent=p_, dense=d_)
+        style = CALL_STYLES[rnd.randrange(len(CALL_STYLES))]
+        args, kwargs = spell_call(fname, mesh, kw, style, rnd)
+        ok, attr = ctx.call("thin:" + fname, getattr(A, fname), *args, **kwargs)
+        if not ok:
+            return None, ""
+        return read_attr(ctx, "thin:" + fname, attr, n, dim, fname), show_call(fname, args, kwargs)
+
+    cache_first = rnd.randrange(2) == 0       # corner angles stored under their documented name first: cotangent / defects then read them
+    steps = ["face_area", "edge_length", "edge_middle_point", "face_barycenter", "face_normals", "corner_angles", "cotangent", "cotan_weights",
+             "angle_defects", "angle_defects0", "vertex_normals", "globals"]
+    rnd.shuffle(steps)
+    if cache_first:
+        ctx.call("thin:corner_angles", A.corner_angles, mesh)
+        ctx.label("angles-cached-first")
+    for step in steps:
+        if step == "face_area":
+            v, d = run("face_area", 2, 1)
+            if v is not None:
+                elementwise("thin:face_area", v, area, 1e-12 * area, d)
+        elif step == "edge_length":
+            v, d = run("edge_length", 5, 1)
+            if v is not None:
+                elementwise("thin:edge_length", v, elen, 1e-12 * elen, d)
+        elif step == "edge_middle_point":
+            v, d = run("edge_middle_point", 5, 3)
+            if v is not None:
+                elementwise("thin:edge_middle_point", v, emid, 1e-12 * Lc, d)
+        elif step == "face_barycenter":
+            v, d = run("face_barycenter", 2, 3)
+            if v is not None:
+                elementwise("thin:face_barycenter", v, fbar, 1e-12 * Lc, d)
+        elif step == "face_normals":
+            v, d = run("face_normals", 2, 3)
+            if v is not None:
+                elementwise("thin:face_normals", v, nrm, 1e-9 + 1e-14 / tmin, d)
+        elif step == "corner_angles":
+            v, d = run("corner_angles", 6, 1)
+            if v is not None:
+                if elementwise("thin:corner_angles", v, ang, 1e-9 * ang + 1e-13, d):
+                    s_ = v.reshape(2, 3).sum(axis=1)
+                    ctx.check(bool(np.all(np.abs(s_ - math.pi) <= 1e-9)), "thin:angle-sum", f"{d}: corner angles of the triangles sum to {s_.tolist()}, not pi")
+        elif step == "cotangent":
+            v, d = run("cotangent", 6, 1)
+            if v is not None:
+                elementwise("thin:cotangent", v, cot, cot_tol, d + (" [angles cached]" if cache_first else ""))
+        elif step == "cotan_weights":
+            v, d = run("cotan_weights", 5, 1)
+            if v is not None:
+                elementwise("thin:cotan_weights", v, np.array(cw), np.array(cw_tol), d)
+        elif step in ("angle_defects", "angle_defects0"):
+            zb = step.endswith("0")
+            v, d = run("angle_defects", 4, 1, zero_border=zb)
+            if v is not None:       # every vertex of the two triangles is on the border
+                elementwise("thin:angle_defects", v, np.zeros(4) if zb else math.pi - asum, 1e-9, d)
+        elif step == "vertex_normals":
+            mode = ("uniform", "area", "angle")[rnd.randrange(3)]
+            wsum = np.zeros((4, 3)); wtot = np.zeros(4)
+            for k_, f in enumerate(F):
+                for i in range(3):
+                    w_ = 1.0 if mode == "uniform" else area[k_] if mode == "area" else ang[3 * k_ + i]
+                    wsum[f[i]] += w_ * nrm[k_]; wtot[f[i]] += w_
+            ln = np.linalg.norm(wsum, axis=1)
+            if np.all(ln / wtot >= 0.05):
+                v, d = run("vertex_normals", 4, 3, interpolation=mode)
+                if v is not None:
+                    elementwise("thin:vertex_normals", v, wsum / ln[:, None], 1e-8 + 1e-13 / tmin.min(), d)
+        else:
+            for fname, exp in (("total_area", float(np.sum(area))), ("mean_face_area", float(np.mean(area))), ("mean_edge_length", float(np.mean(elen)))):
+                ok, v = ctx.call("thin:" + fname, getattr(A, fname), mesh)
+                if ok:
+                    elementwise("thin:" + fname, [float(v)], [exp], 1e-12 * exp, fname + "(mesh)")
+    mesh_unchanged(ctx, mesh, V, "thin / huge integer mesh", F=F)
+
+
+# --------------------------------------------------------------------------------------------- element counts beyond 2**16 / 10**5
+
+# development aid: C07_THIN_TOL_SCALE=0.01 shows how far inside its tolerances the unchanged library stays (default 1)
+THIN_TOL_SCALE = float(os.environ.get("C07_THIN_TOL_SCALE", "1"))
+LARGE_KINDS = ["tri-grid", "tri-grid-edges", "quad-grid", "tet-grid"]
+
+
+@st.composite
+def large_case(draw):
+    """parameters only (the mesh is built deterministically from them inside the check, a 70 000-element case does not belong in a JSON
+    file): kind, seed of the jitter and of the choice of functions, rotation"""
+    return {"kind": draw(st.sampled_from(LARGE_KINDS)), "seed": draw(st.integers(0, 10 ** 6)),
+            "quat": list(draw(st.tuples(*[st.integers(-9, 9)] * 4).filter(lambda t: any(t)))), "rows": draw(st.sampled_from(["int32", "list", "uint32", "int64"]))}
+
+
+def large_mesh_arrays(kind, seed, quat):
+    rs = np.random.RandomState(seed % (2 ** 31))
+    Rm = R.quat_to_matrix(quat)
+    if kind in ("tri-grid", "tri-grid-edges", "quad-grid"):
+        # tri-grid: 66 976 faces, 100 830 edges, 200 928 corners; tri-grid-edges: 66 008 edges (43 808 faces);
+        # quad-grid: 66 564 vertices, 66 049 faces, 132 612 edges, 264 196 corners; tet-grid: 66 654 cells, 136 298 faces
+        nu, nv = {"tri-grid": (184, 182), "tri-grid-edges": (148, 148), "quad-grid": (257, 257)}[kind]
+        xs, ys = np.meshgrid(np.arange(nu + 1, dtype=float), np.arange(nv + 1, dtype=float))
+        V = np.stack([xs.ravel(), ys.ravel(), np.zeros(xs.size)], axis=1)
+        V[:, :2] += rs.uniform(-0.15, 0.15, (len(V), 2))
+        if kind != "quad-grid":
+            V[:, 2] = rs.uniform(-0.3, 0.3, len(V))
+        i, j = np.meshgrid(np.arange(nu), np.arange(nv))
+        a = (j * (nu + 1) + i).ravel(); b = a + 1; c = b + nu + 1; d = a + nu + 1
+        if kind != "quad-grid":
+            F = np.stack([np.stack([a, b, c], axis=1), np.stack([a, c, d], axis=1)], axis=1).reshape(-1, 3)
+        else:
+            F = np.stack([a, b, c, d], axis=1)
+        return V @ Rm.T + np.array([3.0, -2.0, 1.0]), F, None
+    nx, ny, nz = 23, 23, 21
+    g = np.stack(np.meshgrid(np.arange(nx + 1), np.arange(ny + 1), np.arange(nz + 1), indexing="ij"), axis=-1).reshape(-1, 3)
+    vid = lambda q: (q[..., 2] * (ny + 1) + q[..., 1]) * (nx + 1) + q[..., 0]
+    V = np.zeros((len(g), 3))
+    V[vid(g)] = g
+    V += rs.uniform(-0.05, 0.05, V.shape)
+    base = np.stack(np.meshgrid(np.arange(nx), np.arange(ny), np.arange(nz), indexing="ij"), axis=-1).reshape(-1, 3)
+    import itertools
+    cells = []
+    for pm in itertools.permutations(range(3)):       # Kuhn subdivision: 6 tetrahedra per cube
+        q = base.copy(); col = [vid(q)]
+        for ax in pm:
+            q = q.copy(); q[:, ax] += 1; col.append(vid(q))
+        cells.append(np.stack(col, axis=1))
+    C = np.stack(cells, axis=1).reshape(-1, 4)
+    return V @ Rm.T + np.array([3.0, -2.0, 1.0]), None, C
+
+
+def _vangles(P, Q, S):
+    """angle at Q between Q->P and Q->S, vectorised"""
+    u, w = P - Q, S - Q
+    return np.arctan2(np.linalg.norm(np.cross(u, w), axis=1), np.einsum("ij,ij->i", u, w))
+
+
+def fn_large(case, ctx):
+    import mouette as M
+    A = M.attributes
+    kind = case["kind"]
+    rnd = random.Random(case["seed"])
+    V, F, C = large_mesh_arrays(kind, case["seed"], case["quat"])
+    ctx.label("kind=" + kind, "rows=" + case["rows"])
+    rows = (F if C is None else C)
+    rows = rows.tolist() if case["rows"] == "list" else list(rows.astype(getattr(np, case["rows"])))
+    from mouette.mesh.mesh_data import RawMeshData
+    raw = RawMeshData()
+    raw.vertices += list(V.copy())
+    if C is None:
+        raw.faces += rows
+        mesh = M.mesh.SurfaceMesh(raw)
+    else:
+        raw.cells += rows
+        mesh = M.mesh.VolumeMesh(raw)
+    E = np.array([ints(e) for e in mesh.edges], dtype=np.int64).reshape(-1, 2)
+    nV, nE = len(V), len(E)
+    if C is None:
+        k = F.shape[1]
+        allE = np.sort(np.concatenate([F[:, [i, (i + 1) % k]] for i in range(k)]), axis=1)
+        MF = F
+    else:
+        allE = np.sort(np.concatenate([C[:, [i, j]] for i in range(4) for j in range(i + 1, 4)]), axis=1)
+        MF = np.array([ints(f) for f in mesh.faces], dtype=np.int64).reshape(-1, 3)
+        expF = np.unique(np.sort(np.concatenate([C[:, [j for j in range(4) if j != i]] for i in range(4)]), axis=1), axis=0)
+        if not ctx.check(len(MF) == len(expF) and bool(np.array_equal(np.unique(np.sort(MF, axis=1), axis=0), expF)), "faces", "large tet mesh: mesh.faces is not the set of cell triangles"):
+            return
+    uE, cntE = np.unique(allE, axis=0, return_counts=True)
+    if not ctx.check(nE == len(uE) and bool(np.array_equal(np.unique(E, axis=0), uE)) and bool(np.all(E[:, 0] < E[:, 1])), "edges", f"large mesh ({kind}): mesh.edges is not the set of element sides"):
+        return
+    nF = len(MF)
+    sizes = {"V": nV, "E": nE, "F": nF, "C": MF.size if C is None else 0, "K": 0 if C is None else len(C)}
+    for key_, n_ in sizes.items():
+        if n_ > 2 ** 16:
+            ctx.label(f"#{key_}>2**16")
+        if n_ > 10 ** 5:
+            ctx.label(f"#{key_}>10**5")
+    ctx.nontrivial(True)
+    elen = np.linalg.norm(V[E[:, 0]] - V[E[:, 1]], axis=1)
+    L = Mag(float(np.max(np.abs(V)))); L.cond = float(L) / float(elen.min())
+    P = [V[MF[:, i]] for i in range(MF.shape[1])]
+    if MF.shape[1] == 3:
+        crs = np.cross(P[1] - P[0], P[2] - P[0])
+        area = 0.5 * np.linalg.norm(crs, axis=1)
+    else:
+        crs = np.cross(P[1] - P[0], P[2] - P[0])
+        area = 0.5 * np.linalg.norm(np.cross(P[2] - P[0], P[3] - P[1]), axis=1)       # planar convex quads
+    kf = MF.shape[1]
+    where = f"large mesh ({kind}, {nV} vertices, {nE} edges, {nF} faces" + (f", {len(C)} cells)" if C is not None else ")")
+
+    def attr_call(fname, q, n, dim, exp, kindq, mask=None, **extra):
+        p_, d_ = COMBOS[rnd.randrange(4)]
+        kw = dict(extra, name="c07_large_" + q, persistent=p_, dense=d_)
+        style = CALL_STYLES[rnd.randrange(len(CALL_STYLES))]
+        args, kwargs = spell_call(fname, mesh, kw, style, rnd)
+        ok, attr = ctx.call(fname, getattr(A, fname), *args, **kwargs)
+        if ok:
+            vals = read_attr(ctx, fname, attr, n, dim, where)
+            if vals is not None:
+                compare(ctx, "large:" + fname, vals, exp, kindq, L, f"{where}: {show_call(fname, args, kwargs)}", mask)
+
+    def mean_call(fname, per_elem, kindq, both=True):
+        N = len(per_elem)
+        ns = (None, (2 ** 16 + 1, N - 1, min(N, 10 ** 5 + 1), np.int64(2 ** 16))[rnd.randrange(4)])
+        for n in (ns if both else ns[rnd.randrange(2):][:1]):
+            ok, v = ctx.call(fname, getattr(A, fname), mesh) if n is None else ctx.call(fname, getattr(A, fname), mesh, n)
+            if ok:
+                kk = N if n is None else min(int(n), N)
+                compare(ctx, "large:" + fname + ("" if n is None else ":n"), [float(v)], [float(np.mean(per_elem[:kk]))], kindq, L, f"{where}: {fname}(mesh, {n!r}) [mean of the first {kk}]")
+
+    # menu: (estimated seconds on an idle machine, walks a container beyond 2**16 elements?, action); a seeded choice worth about
+    # 1.6 s (quick tier) / 6 s (thorough tier) is made per case, loops over the container(s) this kind of mesh was sized for first
+    big = {k_ for k_, n_ in sizes.items() if n_ > 2 ** 16}
+    menu = [(0.4, "E", lambda: attr_call("degree", "degree", nV, 1, np.bincount(E.ravel(), minlength=nV).astype(float), "int")),
+            (0.9, "E", lambda: attr_call("edge_length", "length", nE, 1, elen, "len")),
+            (0.8, "E", lambda: mean_call("mean_edge_length", elen, "len")),
+            (1.0, "E", lambda: attr_call("edge_middle_point", "middle", nE, 3, (V[E[:, 0]] + V[E[:, 1]]) / 2, "point")),
+            (0.9 * kf / 3, "F", lambda: attr_call("face_area", "area", nF, 1, area, "area")),
+            (1.0 * kf / 3, "F", lambda: mean_call("mean_face_area", area, "area")),
+            (1.2, "F", lambda: attr_call("face_barycenter", "fbary", nF, 3, sum(P) / kf, "point")),
+            (0.6, "V", lambda: compare(ctx, "large:barycenter", np.asarray(A.barycenter(mesh), dtype=float), V.mean(axis=0), "point", L, f"{where}: barycenter"))]
+    if C is None:
+        ang = np.stack([_vangles(P[i - 1], P[i], P[(i + 1) % kf]) for i in range(kf)], axis=1)      # (nF, kf), corner 'kf*face + i'
+        fn_ = crs / np.linalg.norm(crs, axis=1)[:, None]
+        border = np.zeros(nV, dtype=bool); border[uE[cntE == 1].ravel()] = True
+        menu += [(1.0 * kf / 3, "F", lambda: compare(ctx, "large:total_area", [float(A.total_area(mesh))], [float(area.sum())], "area", L, f"{where}: total_area(mesh)")),
+                 (1.8, "F", lambda: attr_call("face_normals", "fnormal", nF, 3, fn_, "dir")),
+                 (1.5 * kf, "C", lambda: attr_call("corner_angles", "angles", nF * kf, 1, ang.ravel(), "inv")),
+                 (0.1, "E", lambda: compare(ctx, "large:euler_characteristic", [float(A.euler_characteristic(mesh))], [float(nV - nE + nF)], "int", L, f"{where}: euler_characteristic"))]
+
+        def vnormals():
+            mode = ("uniform", "area", "angle")[rnd.randrange(3)]
+            acc = np.zeros((nV, 3))
+            for i in range(kf):
+                w_ = np.ones(nF) if mode == "uniform" else area if mode == "area" else ang[:, i]
+                np.add.at(acc, MF[:, i], w_[:, None] * fn_)
+            attr_call("vertex_normals", "vn", nV, 3, acc / np.linalg.norm(acc, axis=1)[:, None], "dir", interpolation=mode)
+        if rnd.randrange(4) == 0:
+            menu.append((4.5 if kf == 3 else 8.0, "V", vnormals))
+
+        def f2v():
+            from mouette.mesh.mesh_attributes import ArrayAttribute
+            x = np.random.RandomState(case["seed"] % 1000 + 1).uniform(-1, 1, nF)
+            w_ = ("uniform", "sum")[rnd.randrange(2)]
+            fa = ArrayAttribute(float, nF)
+            for i_ in range(nF):
+                fa[i_] = float(x[i_])
+            ok, r = ctx.call("interpolate_faces_to_vertices", A.interpolate_faces_to_vertices, mesh, fa, ArrayAttribute(float, nV), weight=w_)
+            if ok:
+                vals = read_attr(ctx, "interpolate_faces_to_vertices", r, nV, 1, where)
+                acc = np.zeros(nV); cnt = np.zeros(nV)
+                for i in range(kf):
+                    np.add.at(acc, MF[:, i], x); np.add.at(cnt, MF[:, i], 1.0)
+                if vals is not None:
+                    compare(ctx, "large:interpolate_faces_to_vertices", vals, acc if w_ == "sum" else acc / cnt, "inv", L, f"{where}: interpolate_faces_to_vertices(weight={w_!r})")
+        menu.append((1.5, "V", f2v))
+        if kf == 3:
+            def defects():
+                zb = rnd.randrange(2) == 0
+                asum = np.zeros(nV)
+                for i in range(3):
+                    np.add.at(asum, MF[:, i], ang[:, i])
+                exp = np.where(border, 0.0 if zb else math.pi - asum, 2 * math.pi - asum)
+                attr_call("angle_defects", "defect", nV, 1, exp, "inv", zero_border=zb)
+            menu.append((5.0, "C", defects))
+            menu.append((7.0, "C", lambda: attr_call("cotangent", "cotan", nF * 3, 1, 1.0 / np.tan(ang.ravel()), "inv")))
+    else:
+        Q = [V[C[:, i]] for i in range(4)]
+        det = np.einsum("ij,ij->i", np.cross(Q[0] - Q[3], Q[1] - Q[3]), Q[2] - Q[3])
+        if float(np.min(np.abs(det))) < 0.2:
+            raise AssertionError("large tet grid: a cell is nearly flat")
+        vol = np.abs(det) / 6.0
+        menu = [m_ for m_ in menu if m_[1] != "F"]          # 136 298 faces: left to the surface kinds
+        menu += [(1.5, "K", lambda: attr_call("cell_volume", "volume", len(C), 1, vol, "vol")),
+                 (1.5, "K", lambda: mean_call("mean_cell_volume", vol, "vol")),
+                 (2.2, "K", lambda: attr_call("cell_barycenter", "cbary", len(C), 3, sum(Q) / 4, "point"))]
+    target = {"tri-grid": "F", "tri-grid-edges": "E", "quad-grid": "V", "tet-grid": "K"}[kind]
+    menu = [m_ for m_ in menu if m_[1] in big]
+    rnd.shuffle(menu)
+    menu.sort(key=lambda m_: m_[1] != target)          # (stable) the loops over the target container first
+    # in every case: the cheapest loop beyond 2**16 (the first n > 2**16 edges, or all of them)
+    mean_call("mean_edge_length", elen, "len", both=False)
+    spent = 0.0
+    budget = 1.6 if ctx.tier == "quick" else 6.0          # (the tier is stored in a replay file)
+    menu = [m_ for m_ in menu if m_[0] <= 1.5 * budget]     # corner_angles / angle_defects / cotangent / vertex_normals: thorough tier only
+    for cost, _, act in menu:
+        if spent > 0 and spent + cost > budget:
+            continue
+        spent += cost
+        act()
+
 def self_test():
     R.self_test()
     # the variant laws on a literal case: a unit right triangle moved by a quarter turn about z and (1,2,3)
@@ -1477,6 +2149,8 @@ SUBCHECKS = [
     SubCheck("tet_volume", tet_case(), fn_tets, quick=240, thorough=300),
     SubCheck("interpolation", interp_case(), fn_interp, quick=240, thorough=250),
     SubCheck("nonconvex_face", nonconvex_case(), fn_nonconvex, quick=200, thorough=200),
+    SubCheck("thin_exact", thin_case(), fn_thin, quick=160, thorough=200),
+    SubCheck("large_mesh", large_case(), fn_large, quick=1, thorough=1, watchdog=(150, 400)),
 ]
 
 def kf_nonconvex_faces(case, violation):
@@ -1536,5 +2210,13 @@ def kf_recall_existing(case, violation):
                                            "defect", "cotw", "area"))
 
 
-MATCHERS = {"kf_recall_existing": kf_recall_existing, "kf_nonconvex_faces": kf_nonconvex_faces, "kf_circumcenter_tiny_triangle": kf_circumcenter_tiny_triangle,
+def kf_output_default(case, violation):
+    """(only reachable with PENDING['output_default']) interpolation into an output attribute that was created with a non-zero default
+    value starts its sums from that default (interpolate_vertices_to_faces; 'area' / 'angle' modes of interpolate_faces_to_vertices;
+    average_corners_to_vertices; 'uniform' / 'angle' modes of average_corners_to_faces)"""
+    return violation.sub_check == "interpolation" and violation.signature.split(":")[0] in ("const", "ref", "reused-output") and \
+        "default 7.0>" in violation.message
+
+
+MATCHERS = {"kf_output_default": kf_output_default, "kf_recall_existing": kf_recall_existing, "kf_nonconvex_faces": kf_nonconvex_faces, "kf_circumcenter_tiny_triangle": kf_circumcenter_tiny_triangle,
             "kf_reused_output": kf_reused_output}
